@@ -3,7 +3,7 @@
 finds rule gaps; its output is triaged by hand into notes/sweep_<kind>.md — it is not part of any registered check).
 kinds:  cmp   every ordering comparison that reaches MIR as a switch: `<`<->`<=`, `>`<->`>=`
 Scratch copies live under /var/tmp and are removed; /repo is never touched."""
-import json, os, re, shutil, subprocess, sys, tempfile
+import json, os, queue, re, shutil, subprocess, sys, tempfile
 from concurrent.futures import ThreadPoolExecutor
 sys.path.insert(0, os.path.dirname(os.path.dirname(os.path.abspath(__file__))))
 VERIF = os.path.dirname(os.path.dirname(os.path.abspath(__file__)))
@@ -47,9 +47,43 @@ def cmp_sites():
     return out
 
 
+SLOTS = queue.Queue()
+
+
+DEL_SKIP = re.compile(r"^\s*(let |return|break|continue|//|tracing::|assert|debug_assert|strict_assert|#\[|\}|\.)|metrics|\.record\(|\.increase\(|\.decrease\(|Instant::|tracing|trace!|fastrace|LocalSpan|println!|panic!|write!|writeln!|de\.field")
+DEL_FILES = re.compile(r"^(foyer-memory/src/(raw|inflight|pipe|record|eviction/|indexer/)|foyer-storage/src/(engine/block/|keeper|store|serde|filter)|foyer/src/hybrid/|foyer-common/src/code)")
+
+
+def del_sites():
+    """every single-line call statement of the anchored files whose value is discarded: the variant deletes the statement"""
+    from sa import mir
+    F = mir.Facts("default")
+    lines = {}
+    for f in lib_fns(F):
+        if f.file.startswith("/") or not DEL_FILES.search(f.file):
+            continue
+        for b in f.blocks:
+            if not b.cleanup and b.term.k == "call":
+                lines.setdefault((f.file, b.term.ln), f.short)
+    out = []
+    for (file, ln), fn in sorted(lines.items()):
+        src = open(os.path.join(REPO, file)).read().split("\n")
+        if ln > len(src):
+            continue
+        t = src[ln - 1]
+        s = t.strip()
+        if not s.endswith(";") or DEL_SKIP.search(t) or s.count("(") != s.count(")") or s.count("{") != s.count("}"):
+            continue
+        if re.search(r"[^=!<>]=[^=]", s) and not re.search(r"\|[^|]*=", s):
+            continue
+        out.append({"name": "%s:%d" % (file, ln), "file": file, "line": ln, "old": t, "new": t[:len(t) - len(t.lstrip())] + "// " + s, "fn": fn})
+    return out
+
+
 def run_variant(v):
     scr = tempfile.mkdtemp(prefix="verif-sweep.", dir="/var/tmp")
     wt = os.path.join(scr, "wt")
+    slot = SLOTS.get()
     try:
         os.makedirs(wt)
         for f in subprocess.check_output(["git", "-C", REPO, "ls-files"], text=True).split("\n"):
@@ -63,6 +97,8 @@ def run_variant(v):
         src[v["line"] - 1] = v["new"]
         open(p, "w").write("\n".join(src))
         env = dict(os.environ, VERIF_REPO=wt, VERIF_WORK=os.path.join(scr, "work"), VERIF_EVIDENCE_DIR=os.path.join(scr, "evidence"), VERIF_TIER="quick")
+        if slot:
+            env["VERIF_TARGET_BASE"] = "/var/tmp/verif-sweep-target-%d" % slot   # own cargo target dir per slot: cargo runs in parallel across slots
         first = subprocess.run([os.path.join(VERIF, "check"), PROPS[0]], cwd=VERIF, env=env, stdout=subprocess.PIPE, stderr=subprocess.STDOUT, text=True).stdout
         if "cannot analyse" in first or "does not build" in first:
             return dict(v, status="nobuild", hits=[])
@@ -72,13 +108,16 @@ def run_variant(v):
         hits = sorted(set(re.findall(r"rule (C\d\d\.[\w.-]+):", "\n".join(outs))))
         return dict(v, status="detected" if hits else "silent", hits=hits)
     finally:
+        SLOTS.put(slot)
         shutil.rmtree(scr, ignore_errors=True)
 
 
 if __name__ == "__main__":
     kind = sys.argv[1]
     jobs = int(sys.argv[2]) if len(sys.argv) > 2 else 2
-    sites = {"cmp": cmp_sites}[kind]()
+    for i in range(jobs):
+        SLOTS.put(i)          # slot 0 shares /verif/.work/target
+    sites = {"cmp": cmp_sites, "del": del_sites}[kind]()
     if len(sys.argv) > 3:
         sites = [s for s in sites if re.search(sys.argv[3], s["name"])]
     print("%d variants" % len(sites), flush=True)
@@ -89,3 +128,5 @@ if __name__ == "__main__":
             print("%-58s %-9s %s   | %s" % (r["name"], r["status"], ",".join(r["hits"]), r["new"].strip()[:90]), flush=True)
             res.append(r)
     json.dump(res, open(os.path.join(VERIF, "notes", "sweep_%s.json" % kind), "w"), indent=1)
+    for i in range(1, jobs):
+        shutil.rmtree("/var/tmp/verif-sweep-target-%d" % i, ignore_errors=True)
